@@ -1,0 +1,14 @@
+//go:build !verif
+
+package syncutil
+
+import "sync"
+
+// simPoint is a no-op in builds without the verif tag.
+func simPoint(_ string) {}
+
+// simPoolGet is a no-op in builds without the verif tag.
+func simPoolGet(_ *sync.Pool) (v any, ok bool) { return nil, false }
+
+// simPoolPut is a no-op in builds without the verif tag.
+func simPoolPut(_ *sync.Pool, _ any) (ok bool) { return false }
